@@ -47,7 +47,7 @@ func (t *Tree) Serialize(d *dict.Dict, maxNodes int, w io.Writer) error {
 		cnl := uint64(0)
 		if tn.Total > minVal {
 			cnl = uint64(len(tn.ChildrenNodes))
-			nodes = append(tn.ChildrenNodes, nodes...)
+			nodes = prependChildren(tn.ChildrenNodes, nodes)
 		}
 		_, err = varint.Write(w, cnl)
 		if err != nil {
@@ -87,7 +87,7 @@ func (t *Tree) SerializeNoDict(maxNodes int, w io.Writer) error {
 		cnl := uint64(0)
 		if tn.Total > minVal {
 			cnl = uint64(len(tn.ChildrenNodes))
-			nodes = append(tn.ChildrenNodes, nodes...)
+			nodes = prependChildren(tn.ChildrenNodes, nodes)
 		}
 		_, err = varint.Write(w, cnl)
 		if err != nil {
